@@ -42,6 +42,8 @@ import (
 //verif:override (github.com/haqq-network/haqq/precompiles/staking.Precompile).EmitDelegateEvent -> c04EmitDelegate
 //verif:override (github.com/haqq-network/haqq/precompiles/staking.Precompile).EmitUnbondEvent -> c04EmitUnbond
 //verif:override github.com/haqq-network/haqq/precompiles/authorization.EmitRevocationEvent -> c04EmitRevocation
+//verif:override (github.com/haqq-network/haqq/precompiles/staking.Precompile).EmitRedelegateEvent -> c04EmitRedelegate
+//verif:override (github.com/haqq-network/haqq/precompiles/staking.Precompile).EmitCancelUnbondingDelegationEvent -> c04EmitCancel
 
 type c04Grant struct {
 	auth authz.Authorization
@@ -129,12 +131,19 @@ func c04EmitDelegate(p Precompile, ctx sdk.Context, stateDB vm.StateDB, msg *sta
 func c04EmitUnbond(p Precompile, ctx sdk.Context, stateDB vm.StateDB, msg *stakingtypes.MsgUndelegate, delegatorAddr common.Address, completionTime int64) error {
 	return nil
 }
+func c04EmitRedelegate(p Precompile, ctx sdk.Context, stateDB vm.StateDB, msg *stakingtypes.MsgBeginRedelegate, delegatorAddr common.Address, completionTime int64) error {
+	return nil
+}
+func c04EmitCancel(p Precompile, ctx sdk.Context, stateDB vm.StateDB, msg *stakingtypes.MsgCancelUnbondingDelegation, delegatorAddr common.Address) error {
+	return nil
+}
 func c04EmitRevocation(args cmn.EmitEventArgs) error                       { return nil }
 
 var (
 	c04Origin   = common.HexToAddress("0x1000000000000000000000000000000000000001") // the transaction signer
 	c04Contract = common.HexToAddress("0x2000000000000000000000000000000000000002") // a calling contract
 	c04Other    = common.HexToAddress("0x3000000000000000000000000000000000000003") // a third party
+	c04Val2     = sdk.ValAddress([]byte{8, 8, 8, 8, 8, 8, 8, 8, 8, 8, 8, 8, 8, 8, 8, 8, 8, 8, 8, 8}).String()
 	c04Val      = sdk.ValAddress([]byte{9, 9, 9, 9, 9, 9, 9, 9, 9, 9, 9, 9, 9, 9, 9, 9, 9, 9, 9, 9}).String()
 	c04Addrs    = []common.Address{c04Origin, c04Contract, c04Other}
 )
@@ -268,18 +277,12 @@ func VerifC04_Identity() {
 	caller := c04Addrs[zz.Choose("caller", 2)] // the signer itself or a contract
 	named := c04Addrs[zz.Choose("namedAccount", 3)]
 	amt := zz.AnyAmount("amount", 128)
-	method := zz.Choose("method", 2)
-	url := DelegateMsg
-	if method == 1 {
-		url = UndelegateMsg
-	}
+	method := zz.Choose("method", 4)
+	url := []string{DelegateMsg, UndelegateMsg, RedelegateMsg, CancelUnbondingDelegationMsg}[method]
 	// grant state: absent / wrong type (generic) / limited / unlimited / for another message type
 	var limit sdkmath.Int
 	grantKind := zz.Choose("grant", 5)
-	authzType := DelegateAuthz
-	if method == 1 {
-		authzType = UndelegateAuthz
-	}
+	authzType := []stakingtypes.AuthorizationType{DelegateAuthz, UndelegateAuthz, RedelegateAuthz, CancelUnbondingDelegationAuthz}[method]
 	gKey := c04Key(caller.Bytes(), c04Origin.Bytes(), url)
 	switch grantKind {
 	case 1:
@@ -292,18 +295,27 @@ func VerifC04_Identity() {
 	case 3:
 		c04.grants[gKey] = &c04Grant{auth: &stakingtypes.StakeAuthorization{AuthorizationType: authzType,
 			Validators: &stakingtypes.StakeAuthorization_AllowList{AllowList: &stakingtypes.StakeAuthorization_Validators{Address: []string{c04Val}}}}}
-	case 4:
-		c04.grants[c04Key(caller.Bytes(), c04Origin.Bytes(), RedelegateMsg)] = &c04Grant{auth: &stakingtypes.StakeAuthorization{AuthorizationType: RedelegateAuthz}}
+	case 4: // a grant for another message type only
+		other, otherT := RedelegateMsg, RedelegateAuthz
+		if method == 2 {
+			other, otherT = DelegateMsg, DelegateAuthz
+		}
+		c04.grants[c04Key(caller.Bytes(), c04Origin.Bytes(), other)] = &c04Grant{auth: &stakingtypes.StakeAuthorization{AuthorizationType: otherT}}
 	}
 	c04.srvFail = zz.AnyBool("moduleRefuses")
 	bal0 := new(big.Int).Set(db.GetBalance(caller))
 	contract := &vm.Contract{CallerAddress: caller}
 	args := []interface{}{named, c04Val, amt.BigInt()}
 	var err error
-	if method == 0 {
+	switch method {
+	case 0:
 		_, err = p.Delegate(ctx, c04Origin, contract, db, c04Method, args)
-	} else {
+	case 1:
 		_, err = p.Undelegate(ctx, c04Origin, contract, db, c04Method, args)
+	case 2:
+		_, err = p.Redelegate(ctx, c04Origin, contract, db, c04Method, []interface{}{named, c04Val, c04Val2, amt.BigInt()})
+	default:
+		_, err = p.CancelUnbondingDelegation(ctx, c04Origin, contract, db, c04Method, []interface{}{named, c04Val, amt.BigInt(), big.NewInt(7)})
 	}
 	if err != nil {
 		zz.Assert(len(c04.msgs) == 0, "a failed call does not reach the staking module")
@@ -321,6 +333,12 @@ func VerifC04_Identity() {
 		delegator, validator, coin = m.DelegatorAddress, m.ValidatorAddress, m.Amount
 	case *stakingtypes.MsgUndelegate:
 		zz.Assert(method == 1, "undelegate hands over a MsgUndelegate")
+		delegator, validator, coin = m.DelegatorAddress, m.ValidatorAddress, m.Amount
+	case *stakingtypes.MsgBeginRedelegate:
+		zz.Assert(method == 2 && m.ValidatorDstAddress == c04Val2, "redelegate hands over a MsgBeginRedelegate with the destination validator of the call")
+		delegator, validator, coin = m.DelegatorAddress, m.ValidatorSrcAddress, m.Amount
+	case *stakingtypes.MsgCancelUnbondingDelegation:
+		zz.Assert(method == 3 && m.CreationHeight == 7, "cancelUnbondingDelegation hands over the native message with the creation height of the call")
 		delegator, validator, coin = m.DelegatorAddress, m.ValidatorAddress, m.Amount
 	}
 	zz.Assert(validator == c04Val && coin.Denom == "aISLM" && coin.Amount.Equal(amt), "validator and amount (bond denom) are those of the call")
